@@ -89,21 +89,16 @@ Definition mutator_rows : list (string * string * list string * list string) :=
 Lemma table_matches_model_holds : forallb row_ok version_table = true.
 Proof. vm_compute. reflexivity. Qed.
 
-Lemma all_mutators_bump_holds :
-  forall cls meth all any, In (cls, meth, all, any) mutator_rows ->
-    exists req, required cls (name_of meth) = Some req /\ req <> [] /\ subset_s req all = true.
-Proof.
-  intros cls meth all any H.
-  unfold mutator_rows in H.
-  destruct (proj1 (filter_In _ (cls, meth, all, any) version_table) H) as [Hin Hf]. clear H.
-  pose proof (proj1 (forallb_forall row_ok version_table) table_matches_model_holds _ Hin) as T. clear Hin.
-  unfold row_ok in T. cbn [fst snd] in T, Hf. unfold row_ok4 in T. unfold is_mutator in Hf.
-  apply andb_prop in Hf. destruct Hf as [Hc Hr].
-  destruct (ends_const meth); [discriminate Hc|].
-  destruct (required cls (name_of meth)) as [[|r0 rs]|]; [discriminate Hr| |discriminate Hr].
-  exists (r0 :: rs). split; [reflexivity|]. split; [intro X; discriminate X|exact T].
-Qed.
+(* every public member function that the model classifies as structurally modifying certainly reaches a bump of
+   each version cell the model says it advances *)
+Definition mutator_bumps (row : string * string * list string * list string) : bool :=
+  let cls := fst (fst (fst row)) in let meth := snd (fst (fst row)) in
+  if is_mutator cls meth then
+    match required cls (name_of meth) with Some req => subset_s req (snd (fst row)) | None => false end
+  else true.
+Lemma all_mutators_bump_holds : forallb mutator_bumps version_table = true.
+Proof. vm_compute. reflexivity. Qed.
 
 (* non-vacuity: the table really contains the mutators of all classes *)
-Lemma mutator_rows_nonempty : (40 <=? length mutator_rows)%nat = true.
+Lemma mutator_rows_nonempty : Nat.leb 40 (length mutator_rows) = true.
 Proof. vm_compute. reflexivity. Qed.
